@@ -182,7 +182,13 @@ class SubBare(MyIter):
 class JetGroup(Iterable[Jet]):
     gname: str
     radius: float
+# a class and its generic base that carry the SAME name (this experiment's Jets built on a generic package's Jets)
+_generic_pkg = {}
+exec(chr(10).join(["from typing import Generic, Iterable, TypeVar", "T = TypeVar('T')", "class NJets(Generic[T]):", "    def leading(self) -> T: ...", "    def every(self) -> Iterable[T]: ...", "    def nj(self) -> int: ..."]), _generic_pkg)
+class NJets(_generic_pkg["NJets"][Jet]):
+    def n_b(self) -> int: ...
 class Event(Base):
+    def njets(self) -> NJets: ...
     def both(self) -> Both: ...
     def boxiter(self) -> BoxAndIter: ...
     def bare(self) -> MyIter: ...
@@ -473,6 +479,14 @@ class TGen:
     def scalar(self, v, vt, d):
         """a numeric expression over variable v: vt -> (text, type) or None"""
         r = self.r
+        if r.random() < 0.1:
+            # arithmetic on two truth values is a number (True + True == 2): int, float for /
+            b1, b2 = self.boolean(v, vt, 0), self.boolean(v, vt, 0)
+            if b1 is not None and b2 is not None:
+                op = r.choice(["+", "-", "*", "/"])
+                self.interesting = True
+                self.bool_arith = getattr(self, "bool_arith", 0) + 1
+                return f"(({b1}) {op} ({b2}))", (float if op == "/" else int)
         for _ in range(6):
             text, t = self.expr(v, vt, r.randint(1, 3))
             if t in (int, float):
@@ -629,6 +643,8 @@ def judge_stage(ctx, stream, cur_t, rnd):
         ctx.count("conditionals-with-equal-branch-types")
     if getattr(g, "records_cond", 0):
         ctx.count("conditionals-of-records-with-permuted-fields", g.records_cond)
+    if getattr(g, "bool_arith", 0):
+        ctx.count("arithmetic-on-two-truth-values", g.bool_arith)
     if getattr(g, "odd_keys", 0):
         ctx.count("dictionaries-with-a-key-that-is-no-identifier", g.odd_keys)
     if getattr(g, "regops", 0):
